@@ -447,6 +447,11 @@ func (e *Eng) globalValue(st *State, o *types.Var) Val {
 	switch t.Underlying().(type) {
 	case *types.Interface, *types.Pointer, *types.Signature:
 		if e.globalIsConst(o) {
+			if o2 := e.globalAliasOf(o); o2 != nil {
+				v := e.globalValue(st, o2)
+				v.T = t
+				return v
+			}
 			c := "G!" + sanitize(name)
 			if !e.declared[c] {
 				e.declared[c] = true
@@ -690,4 +695,33 @@ func (e *Eng) storeWord(st *State, reg, idx string, v Val) {
 		arr = sx("store", arr, i, sx(fmt.Sprintf("(_ extract %d %d)", 8*k+7, 8*k), w))
 	}
 	e.setHeap(st, h, sx("store", cur, reg, arr))
+}
+
+// globalAliasOf: the variable is initialised with the value of another
+// read-only package-level variable (var maskRand = rand.Reader).
+func (e *Eng) globalAliasOf(o *types.Var) *types.Var {
+	if o.Pkg() != e.pkg.Pkg {
+		return nil
+	}
+	init := e.pkg.Func("init")
+	g, _ := e.pkg.Members[o.Name()].(*ssa.Global)
+	if init == nil || g == nil {
+		return nil
+	}
+	for _, b := range init.Blocks {
+		for _, in := range b.Instrs {
+			s, ok := in.(*ssa.Store)
+			if !ok || s.Addr != ssa.Value(g) {
+				continue
+			}
+			if ld, ok := s.Val.(*ssa.UnOp); ok && ld.Op == token.MUL {
+				if g2, ok := ld.X.(*ssa.Global); ok {
+					if o2, ok := g2.Object().(*types.Var); ok && e.globalIsConst(o2) {
+						return o2
+					}
+				}
+			}
+		}
+	}
+	return nil
 }
